@@ -353,6 +353,20 @@ theorem decorators_stateless (delta : SV α) (alpha : α) (x : X) (a : A)
   · simp only [closestValidPenalty, ← hfe, ← hc, ← hfc, ← hf]
     rw [hc] at h2; simp only [← hw, ← hc] at h2 ⊢; simp only [h2]
 
+/-- One decorator object decorating several functions (`toolbox.decorate` called twice with the
+same object): a decorated function is a pure function of (decorator parameters, wrapped function,
+arguments), so the `j`-th wrapper is the decoration of the `j`-th function and of nothing else —
+whatever else was decorated before or after, and whatever fitness is stored on the individual or
+on the closest point (the model has no such input). -/
+theorem wrappers_independent (feas : X → Bool) (delta : SV α) (dist : Option (X → SV α))
+    (closest : X → X) (alpha : α) (dist2 : Option (X → X → SV α)) (weights : X → List α)
+    (fs : List (X → A → List α)) (j : Nat) (hj : j < fs.length) (x : X) (a : A) :
+    ((fs.map fun f => deltaPenalty feas delta dist weights f)[j]'(by simpa using hj)) x a =
+      deltaPenalty feas delta dist weights fs[j] x a ∧
+    ((fs.map fun f => closestValidPenalty feas closest alpha dist2 weights f)[j]'(by simpa using hj)) x a =
+      closestValidPenalty feas closest alpha dist2 weights fs[j] x a := by
+  simp
+
 /-! ### Non-vacuity: concrete instances (weights of both signs and zero, scalar / vector
 constants and distances, a forwarded extra argument) -/
 
@@ -386,6 +400,10 @@ example : deltaPenalty (fun y => decide (y < 5)) (.scalar (10 : Int)) (some fun 
       (fun y => if y = 7 then [1, -1] else [-1]) (fun (y : Nat) (_ : Nat) => [y, y]) 7 5 =
     deltaPenalty (fun _ => false) (.scalar (10 : Int)) (some fun _ => .scalar 7)
       (fun _ => [1, -1]) (fun (_ : Nat) (_ : Nat) => [7, 7]) 7 5 := by decide
+-- `wrappers_independent`: three functions behind one decorator, the middle wrapper uses the middle one
+example : (([fun (y : Nat) (_ : Nat) => [(y : Int)], fun y a => [(y + a : Nat)], fun _ _ => [0]].map
+      fun f => deltaPenalty (fun _ => true) (.scalar (10 : Int)) none (fun _ => [1]) f)[1]) 7 5 =
+    ⟨some [12], [(7, 5)]⟩ := by decide
 -- hypotheses of `never_better_*` / `delta_length`: non-negative distances, well-sized vectors
 example : (∀ v ∈ (SV.seq [(1 : Int), 2, 3]).vals, 0 ≤ v) ∧ (∀ v ∈ (SV.scalar (0 : Int)).vals, 0 ≤ v) := by
   decide
